@@ -75,7 +75,7 @@ def run(pid, tier):
     else:
         traces = []
         mu = os.path.join(d, "mut.ndjson")
-        if vlib.record(V, ["persist", "mutate", "--seed", seed, "--out", mu]):
+        if vlib.record(V, ["persist", "mutate", "--seed", seed, "--double", 100 if quick else 4000, "--out", mu]):
             traces.append(mu)
         ct = os.path.join(d, "ctors.ndjson")
         if vlib.record(V, ["persist", "ctors", "--out", ct]):
@@ -117,7 +117,7 @@ def run(pid, tier):
         extra = dict(date_calls_judged=nq, calendar_traces=st["events"], named_constructor_calls=nev, out_of_window_skipped=st["oow"])
         events += st["events"] + nev
         level = "fault_enumeration"
-        rule = ("faults = malformed inputs: every single mutation (delete, duplicate, 11 replacement values of every JSON type, grow) at every path of one valid tagged document per serialisable type; "
+        rule = ("faults = malformed inputs: every single mutation (delete, duplicate, 11 replacement values of every JSON type, grow) at every path of one valid tagged document per serialisable type, plus seeded double mutations; "
                 "constructor argument grids (Dual / Dual2 length grids incl. duplicate names, Ccy strings, FXPair, csolve site/value counts x allow_lsq x singular sites, degenerate FX quote sets, "
                 "every NamedCal token string of the grammar model); date functions on the calendar families with day counts incl. -128, -127, 126, 127 and month offsets / roll days 1-31; a case is one (entry point, input)")
         nontrivial = events
